@@ -247,15 +247,29 @@ func Capitalize(s string) string {
 // CapitalizeAll returns a copy of the string s with the first letter of
 // each word in upper case.
 func CapitalizeAll(s string) string {
+	var b strings.Builder
 	prev := ' '
-	return strings.Map(func(r rune) rune {
+	last := 0 // index in s of the first byte not yet written to b.
+	for i, r := range s {
 		if isSeparator(prev) {
-			prev = r
-			return unicode.ToUpper(r)
+			if u := unicode.ToUpper(r); u != r {
+				// The upper case form may be encoded with a different number of bytes.
+				_, size := utf8.DecodeRuneInString(s[i:])
+				if last == 0 {
+					b.Grow(len(s))
+				}
+				b.WriteString(s[last:i])
+				b.WriteRune(u)
+				last = i + size
+			}
 		}
 		prev = r
-		return r
-	}, s)
+	}
+	if last == 0 {
+		return s
+	}
+	b.WriteString(s[last:])
+	return b.String()
 }
 
 // Date returns the time corresponding to the given date with time zone
